@@ -300,3 +300,8 @@ class C02(Check):
 # the composed stream (one real application, one request, against App.serve of Model/App.lean)
 from harness import applib as _applib  # noqa: E402
 _applib.install(C02, quick=(300, 120), thorough=(10000, 3000))
+
+# the registration surface (Ombott.route in every call form, shortcuts, hooks, error handlers, aliases, run): an extra
+# correspondence stream and oracle
+from harness import regapilib as _regapi  # noqa: E402
+_regapi.install(C02)
